@@ -788,6 +788,17 @@ impl ExecutionState {
     /// Generate a random u64 from the current scheduler and return it.
     #[inline]
     pub fn next_u64() -> u64 {
+        // A random draw is a step. Once the step bound is exhausted, make the draw a scheduling point so
+        // that the execution is stopped (or failed) as configured instead of running on.
+        let bound_exceeded = Self::with(|state| match state.config.max_steps {
+            MaxSteps::FailAfter(max_steps) | MaxSteps::ContinueAfter(max_steps) => {
+                state.is_step_bound_exceeded(max_steps)
+            }
+            MaxSteps::None => false,
+        });
+        if bound_exceeded {
+            thread::switch();
+        }
         Self::with(|state| {
             CurrentSchedule::push_random();
             state.scheduler.borrow_mut().next_u64()
